@@ -179,6 +179,10 @@ func (c *EncryptedServerCookie) Decrypt(key []byte) (ServerCookie, error) {
 		return ServerCookie{}, err
 	}
 
+	if len(c.Nonce) != aessiv.NonceSize() {
+		return ServerCookie{}, errUnexpectedCookieData
+	}
+
 	b, err := aessiv.Open(nil /* dst */, c.Nonce, c.Ciphertext, nil /* additionalData */)
 	if err != nil {
 		return ServerCookie{}, err
